@@ -72,6 +72,8 @@ CASES = [
     W('C02', 'list comprehension copy -> list()',
       (C, "        return [x for x in self._clusters[c]['resources']['available']]\n\n    def is_observation_provisioned",
        "        return list(self._clusters[c]['resources']['available'])\n\n    def is_observation_provisioned")),
+    M('C02', 'machine appended to the busy pool before it is taken out of the reservation', (C, "            self._clusters[c]['resources']['idle'][observation].remove(machine)\n            self._clusters[c]['resources'][pool].append(machine)", "            self._clusters[c]['resources'][pool].append(machine)\n            self._clusters[c]['resources']['idle'][observation].remove(machine)")),
+    M('C02', 'a usage counter starts at one', (C, "        self._usage_data = {'occupied': 0, 'ingest': 0,", "        self._usage_data = {'occupied': 0, 'ingest': 1,")),
     # ---------------- C03
     M('C03', 'counting gate weakened', (BA, "                            if count < len(list(pred)):", "                            if count < len(list(pred)) - 1:")),
     M('C03', 'same-machine predecessors waited for instead', (S, "            if pred_machine != machine:", "            if pred_machine == machine:")),
@@ -103,6 +105,10 @@ CASES = [
     M('C04', 'take-over when nothing is ready', (S, "            if self.buffer.has_observations_ready_for_processing():", "            if not self.buffer.has_observations_ready_for_processing():")),
     W('C04', 'allocation loop as while-not-finished', (S, "        while True:\n            current_plan.tasks = self._update_current_plan(current_plan)", "        finished = False\n        while not finished:\n            current_plan.tasks = self._update_current_plan(current_plan)"),
       (S, "            if finished:\n                # We have finished this observation\n                # LOGGER.info(f'{observation.name} Removed from Queue @'\n                #             f'{self.env.now}')\n                # self.cluster.release_batch_resources(observation)\n                break\n", "            if finished:\n                continue\n")),
+    M('C04', 'scheduler never switched to RUNNING', (S, "        self.status = SchedulerStatus.RUNNING\n        return self.status", "        return self.status")),
+    M('C04', 'scheduler loop left whenever the queue is empty', (S, "                    not self.observation_queue and self.status ==", "                    not self.observation_queue or self.status ==")),
+    M('C04', 'closing path reports not finished', (S, "                finished = True\n", "                finished = False\n")),
+    M('C04', 'submission guard inverted', (S, "                if task.task_status != TaskStatus.UNSCHEDULED:\n                    raise RuntimeError(\"Producing schedule", "                if task.task_status == TaskStatus.UNSCHEDULED:\n                    raise RuntimeError(\"Producing schedule")),
     # ---------------- C05
     M('C05', 'release of the ingest reservation dropped', (S, "            self.provision_ingest -= pipeline_demand\n", "")),
     M('C05', 'loop yield made conditional', (S, "            yield self.env.timeout(1)\n\n        if RunStatus.FINISHED:", "            if time_left > 0:\n                yield self.env.timeout(1)\n\n        if RunStatus.FINISHED:")),
@@ -117,6 +123,8 @@ CASES = [
     M('C05', 'successors never enter the pool', (QA, "        task_pool.update(added)\n", "")),
     M('C05', 'successors of root tasks forgotten', (BA, "                            removed.add(task)\n                            added.update(workflow_plan.graph.successors(task))\n                        else:", "                            removed.add(task)\n                        else:")),
     W('C05', 'pool fed through a list of proposed tasks', (QA, "        task_pool -= removed\n        task_pool.update(added)\n", "        task_pool -= removed\n        for done in removed:\n            task_pool.update(workflow_plan.graph.successors(done))\n")),
+    M('C05', 'in-flight size read when nothing is in flight', (B, "        size = observation_size\n        if self.observations['transfer']:\n            size = observation_size + self.observations[\n                'transfer'].total_data_size\n\n\n        return (", "        size = observation_size\n        if not self.observations['transfer']:\n            size = observation_size + self.observations[\n                'transfer'].total_data_size\n\n\n        return (")),
+    M('C05', 'reservation read for an observation that has none', (C, "        elif observation in self._clusters[c]['resources']['idle']:\n            self._clusters[c]['resources']['idle'][observation].remove(machine)", "        elif observation not in self._clusters[c]['resources']['idle']:\n            self._clusters[c]['resources']['idle'][observation].remove(machine)")),
     # ---------------- C06
     M('C06', 'timeout(total) instead of total - 1', (T, "            yield env.timeout(total_duration - 1)", "            yield env.timeout(total_duration)")),
     M('C06', 'max -> min', (T, "        return  max(compute_time, data_time)", "        return  min(compute_time, data_time)")),
@@ -144,6 +152,8 @@ CASES = [
     W('C08', 'is_ready conjunction as nested ifs',
       (INS, "        if self.est <= current_time \\\n                and self.demand <= capacity \\\n                and self.status is RunStatus.WAITING:\n            return True\n        else:\n            return False",
        "        if self.est <= current_time:\n            if self.demand <= capacity:\n                if self.status is RunStatus.WAITING:\n                    return True\n        return False")),
+    M('C08', 'an observation is born with a start time', (INS, "        self.ast = None\n", "        self.ast = start\n")),
+    M('C08', 'planned start rounded', (CFG, "                    start=observation['start'] / timestep_multiplier,", "                    start=round(observation['start'] / timestep_multiplier),")),
     # ---------------- C09
     M('C09', 'batch draws from the free pool', (BA, "            temporary_resources = cluster.get_idle_resources(workflow_plan.id)", "            temporary_resources = cluster.get_available_resources()")),
     M('C09', 'partition bound dropped', (BA, "            if cluster.num_provisioned_obs < self.max_resources_split:", "            if cluster.num_provisioned_obs <= self.max_resources_split:")),
@@ -185,6 +195,7 @@ CASES = [
     M('C14', 'wrong node attribute', (BP, "                task_compute =  graph.nodes[task]['comp']", "                task_compute =  graph.nodes[task].get('task_data', 0)")),
     M('C14', 'id without the observation name', (PLN.replace('core/planner', 'algorithms/planning'), "        return observation.name + '_' + str(clock) + '_' + str(tid)", "        return str(clock) + '_' + str(tid)")),
     M('C14', 'query roles swapped', (PLN, "    def get_task_successors(self, task_id):\n        return self.graph.successors(task_id)", "    def get_task_successors(self, task_id):\n        return self.graph.predecessors(task_id)")),
+    M('C14', 'Task truncates its demands', (T, "        self.flops = flops\n        self.task_data = task_data", "        self.flops = int(flops)\n        self.task_data = int(task_data)")),
     # ---------------- C15
     M('C15', 'filter below the mean', (DLY, "        var = s[s > mu]", "        var = s[s < mu]")),
     M('C15', 'seed dropped in the normal branch', (DLY, "            s = default_rng(self.seed).normal(mu, sigma, n)", "            s = default_rng().normal(mu, sigma, n)")),
@@ -208,6 +219,8 @@ CASES = [
     M('C18', 'refusal without re-append', (B, "            self.cold[b].observations['stored'].append(current_obs)\n            self.cold[b].observations['transfer'] = None\n            return False", "            self.cold[b].observations['transfer'] = None\n            return False")),
     W('C18', 'rate computed inline', (B, "            check = self.hot[b].receive_observation(\n                current_obs,\n                data_left_to_transfer,\n                transfer_rate\n            )",
                                       "            check = self.hot[b].receive_observation(\n                current_obs,\n                data_left_to_transfer,\n                min(self.hot[b].max_ingest_data_rate, self.cold[b].max_data_rate)\n            )")),
+    M('C18', 'room asked for the oldest stored observation', (B, "        if not self.cold[b].has_capacity_for(data_left_to_transfer):\n            # We cannot actually transfer the observation due to size\n            # constraints\n            # TODO create an object method to update the hot buffer\n            self.hot[b].observations['stored'].append(current_obs)", "        if not self.cold[b].has_capacity_for(self.hot[b].observations['stored'][0].total_data_size if self.hot[b].observations['stored'] else 0):\n            self.hot[b].observations['stored'].append(current_obs)")),
+    M('C18', 'move loop goes on at residual zero', (B, "            if data_left_to_transfer <= 0:\n                LOGGER.info(\n                    \"Buffer transfer completed at time %s\", self.env.now\n                )\n                self._add_event(current_obs, \"transfer\", \"stopped\")\n                break\n\n            check = self.cold[b].receive_observation(", "            if data_left_to_transfer < 0:\n                LOGGER.info(\n                    \"Buffer transfer completed at time %s\", self.env.now\n                )\n                self._add_event(current_obs, \"transfer\", \"stopped\")\n                break\n\n            check = self.cold[b].receive_observation(")),
     # ---------------- C19
     M('C19', 'and -> or again', (C, "                (len(self._clusters['default']['tasks']['running']) == 0) and (", "                (len(self._clusters['default']['tasks']['running']) == 0) or (")),
     M('C19', 'telescope test inverted', (TEL, "        if ((not self.telescope_status) and self.telescope_use == 0):", "        if ((not self.telescope_status) or self.telescope_use == 0):")),
